@@ -34,6 +34,7 @@ func init() {
 
 func genC14(r *simrt.Rand, tier string) (Cfg, *Program) {
 	pf := baseProfile()
+	pf.ReenterPct = 8 // worker functions that call back into the library (not TunePool: the reference machine tracks the pool size through the sequence's own calls)
 			pf.WrapDeqPct = 15 // user-supplied queues that refuse a dequeue now and then
 	pf.WKinds = allW
 	pf.Conc = []int{1, 2, 3}
